@@ -272,6 +272,12 @@ def match_known(known, v):
         sub = m.get("msg_contains")
         if sub and sub not in (v.get("msg") or ""):
             continue
+        anyof = m.get("msg_contains_any")
+        if anyof and not any(a in (v.get("msg") or "") for a in anyof):
+            continue
+        cfgsub = m.get("cfg_contains")
+        if cfgsub and cfgsub not in str((v.get("params") or {}).get("cfg", "")):
+            continue
         want = m.get("params") or {}
         p = v.get("params") or {}
         if any(p.get(a) != b for a, b in want.items()):
